@@ -299,6 +299,35 @@ def header_strings(r, iface, tier):
                     res = emit(iface, resp)
                     for pr in line_problems(res):  # CR, LF, NUL only: a TAB is legal in a field value as far as this property goes
                         r.violation("headers:emitted-line", w, f"{iface} after {pname}({s_!r}): {pr}")
+    # values that are not exactly str: a str subclass (a "safe markup" wrapper), a str-valued enum member
+    import enum
+
+    class Marked(str):
+        pass
+
+    class Tone(str, enum.Enum):
+        BAD = "x\r\nset-cookie: evil=1"
+        NUL = "a\0b"
+    for value in (Marked("a\r\nb: c"), Marked("\nx"), Marked("a\0"), Tone.BAD, Tone.NUL):
+        for pname, fn in paths.items():
+            for name in ("x-new", "x-old"):
+                if (pname == "append-existing") != (name == "x-old"):
+                    continue
+                resp = fresh(iface, (("x-old", "1"),))
+                r.count("evaluations")
+                r.count("distinct_nontrivial")
+                w = {"kind": "hdrstring", "iface": iface, "path": pname, "string": str.__str__(value), "as_name": False, "subclass": type(value).__name__}
+                try:
+                    fn(resp.headers, name if pname != "append-existing" else "x-new", value)
+                    rejected = False
+                except (ValueError, TypeError):
+                    rejected = True
+                res = emit(iface, resp)
+                probs = line_problems(res)
+                # (how such an object is turned into text is the interpreter's business - an enum member may come out as its
+                #  name; what counts is that nothing with CR, LF or NUL is ever emitted)
+                if probs:
+                    r.violation("headers:emitted-line", w, f"{iface} after {pname}({name!r}, <{type(value).__name__} {str.__str__(value)!r}>): {probs[0]}")
     # names the library itself writes (and might therefore trust): the same strings under these names
     for special in ("content-length", "content-range", "content-type", "content-disposition", "location", "set-cookie", "etag", "last-modified", "Content-Length", "CONTENT-RANGE"):
         for s_ in [x for x in strings if len(x) <= 2 and bad(x)] + ["12\r\nx: y", "bytes 0-1/2\n", "\0"]:
